@@ -14,5 +14,3 @@ func init() {
 		return args[1]
 	}
 }
-
-func cmdCheck(args []string) int { return 2 }
